@@ -1,0 +1,49 @@
+//go:build verif
+// +build verif
+
+// Verification hook for the block store check (add-only, compiled only with -tags verif): drive the
+// block fork of the sync processor (fork_block.go) without the network layer - create it on a common
+// ancestor, feed it blocks through the real addBlockOnFork, and call the real triggerOnChain on the
+// running chain. Nothing here changes the behaviour of the code under test; every function only calls it.
+package core
+
+import (
+	"com.tuntun.rangers/node/src/common"
+	"com.tuntun.rangers/node/src/middleware/types"
+)
+
+var verifBCFork *blockChainFork
+
+// VerifBCForkNew = newBlockChainFork(block with the given hash on the local chain), as startSync does.
+func VerifBCForkNew(commonAncestor common.Hash) bool {
+	b := blockChainImpl.queryBlockByHash(commonAncestor)
+	if b == nil {
+		return false
+	}
+	verifBCFork = newBlockChainFork(*b)
+	return true
+}
+
+// VerifBCForkAdd = addBlockOnFork(block, no group fork): order, hash, tx root, group, state and
+// receipt checks, then the fork DB insert.
+func VerifBCForkAdd(b *types.Block) error {
+	return verifBCFork.addBlockOnFork(b, nil)
+}
+
+// VerifBCForkTriggerOnChain = one call of triggerOnChain on the running chain.
+func VerifBCForkTriggerOnChain() bool {
+	return verifBCFork.triggerOnChain(blockChainImpl)
+}
+
+// VerifBCForkState returns header, current and the fork's latest block header.
+func VerifBCForkState() (uint64, uint64, *types.BlockHeader) {
+	return verifBCFork.header, verifBCFork.current, verifBCFork.latestBlock
+}
+
+// VerifBCForkDestroy = destroy(), as finishCurrentSync does.
+func VerifBCForkDestroy() {
+	if verifBCFork != nil {
+		verifBCFork.destroy()
+		verifBCFork = nil
+	}
+}
